@@ -4,7 +4,7 @@
 WS=$1; ID=$2; TIER=${3:-quick}; SEED=${4:-20260926}
 W=/tmp/hw/$WS
 [ -d $W ] || /verif/tools/mkwork.sh $WS >/dev/null 2>&1
-rsync -a --delete /verif/harness/src/ $W/src/
+rsync -a --delete ${VCHECK_SRC:-/verif/harness/src}/ $W/src/
 rsync -a --delete /verif/regress/ $W/root/regress/
 cp /verif/known_findings.json $W/root/
 $W/run.sh fixed $ID $TIER $SEED
